@@ -416,6 +416,88 @@ class strand_from_entries:
     modifies = []
 
 
+@spec
+def strand_at(sd, E, db, lo, n):
+    """the strand sd is the run of n positions of E starting at the 0-based position lo, with the slices of sequence and text"""
+    return (sd.first == lo + 1 and sd.last == lo + n
+            and len(sd.sequence) == n and forall(lambda t: implies(0 <= t and t < n, sd.sequence[t] == E[lo + t].sequence))
+            and len(sd.structure) == n and forall(lambda t: implies(0 <= t and t < n, sd.structure[t] == db[lo + t])))
+
+
+@spec
+def onto_interval(F, PS, m, a, w):
+    """F maps 0..m-1 strictly increasingly into the interval a..a+w-1 and every point of the interval is hit (PS: inverse)"""
+    return (forall(lambda j: implies(0 <= j and j < m, a <= F[j] and F[j] <= a + w - 1))
+            and forall(lambda j, k: implies(0 <= j and j < k and k < m, F[j] < F[k]))
+            and forall(lambda i: implies(a <= i and i <= a + w - 1, 0 <= PS[i] and PS[i] < m and F[PS[i]] == i)))
+
+
+LEMMAS.update({
+    # a strictly increasing map from 0..m-1 onto an integer interval a..a+w-1 is j -> a + j (induction on j) ...
+    "consecutive": {"kind": "smt", "params": ["F", "PS", "m", "a", "w", "j"], "shapes": ["list[int]", "list[int]", "int", "int", "int", "int"],
+                    "requires": ["onto_interval(F, PS, m, a, w)"],
+                    "decreases": "ite(j > 0, j, 0)",
+                    "steps": ["use consecutive(F, PS, m, a, w, j - 1) when j > 0",
+                              "let c = 0 <= j and j < m", "let i = a + j",
+                              "assert implies(c, a <= F[j] and F[j] <= a + w - 1)",
+                              "assert implies(c and j == 0, 0 <= PS[a] and PS[a] < m and F[PS[a]] == a)",
+                              "assert implies(c and j == 0, implies(PS[a] > 0, F[0] < F[PS[a]]))",
+                              "assert implies(c and j == 0, F[0] == a)",
+                              "assert implies(c and j > 0, F[j - 1] == i - 1 and F[j - 1] < F[j] and a <= i and i <= a + w - 1)",
+                              "assert implies(c and j > 0, 0 <= PS[i] and PS[i] < m and F[PS[i]] == i)",
+                              "assert implies(c and j > 0, implies(PS[i] < j - 1, F[PS[i]] < F[j - 1]))",
+                              "assert implies(c and j > 0, PS[i] >= j)",
+                              "assert implies(c and j > 0, implies(j < PS[i], F[j] < F[PS[i]]))",
+                              "assert implies(c and j > 0, F[j] == i)"],
+                    "ensures": ["implies(0 <= j and j < m, F[j] == a + j)"]},
+    # ... and has exactly as many points as the interval
+    "onto_length": {"kind": "smt", "params": ["F", "PS", "m", "a", "w"], "shapes": ["list[int]", "list[int]", "int", "int", "int"],
+                    "requires": ["onto_interval(F, PS, m, a, w)", "m >= 0", "w >= 1"],
+                    "steps": ["let k = PS[a + w - 1]",
+                              "assert 0 <= k and k < m and F[k] == a + w - 1",
+                              "use consecutive(F, PS, m, a, w, k)",
+                              "use consecutive(F, PS, m, a, w, m - 1)",
+                              "assert k == w - 1 and F[m - 1] == a + m - 1 and F[m - 1] <= a + w - 1"],
+                    "ensures": ["m == w"]},
+})
+
+
+class stem_from_entries:
+    """Stem.from_bpseq_entries(T, E, db) for a run T of stacked pairs of the valid structure E (C07 'mirrored 5' and 3'
+    strands'): the 5' strand is the run itself, the 3' strand the run of the partners - it ends at pair(first5) and begins
+    at pair(last5) - and both carry the slices of the sequence and of the text db"""
+    target = "Stem.from_bpseq_entries"
+    params = {"strand5p_entries": "list[Entry]", "all_entries": "list[Entry]", "dotbracket": "cstr"}
+    requires = ["valid(all_entries)", "len(strand5p_entries) >= 1", "run_ok(all_entries, strand5p_entries)",
+                "len(dotbracket) == len(all_entries)"]
+    returns = "Stem"
+    raises = []
+    ensures = ["fresh(result)",
+               "stem_of(result, strand5p_entries)",
+               "result.strand3p.first == strand5p_entries[len(strand5p_entries) - 1].pair and result.strand3p.last == strand5p_entries[0].pair",
+               "strand_at(result.strand5p, all_entries, dotbracket, strand5p_entries[0].index_ - 1, len(strand5p_entries))",
+               "strand_at(result.strand3p, all_entries, dotbracket, strand5p_entries[0].pair - len(strand5p_entries), len(strand5p_entries))"]
+    ensures_labels = {0: "fresh", 1: "strand-ends", 2: "3'-strand-mirrors-5'-strand", 3: "5'-strand-slices", 4: "3'-strand-slices"}
+    modifies = []
+    ghost = [
+        {"when": "after", "at": "strand3p_entries = list(filter(", "label": "3p-run",
+         "do": ["let T = strand5p_entries", "let E = all_entries", "let w = len(T)", "let a = T[0].pair - w",
+                "let F = filter_index()", "let PS = filter_pos()", "let m = len(strand3p_entries)",
+                "forall t | assert implies(0 <= t and t < w, T[t].pair == T[0].pair - t and T[t].index_ == T[0].index_ + t and T[t].index_ < T[t].pair and 1 <= T[t].pair and T[t].pair <= len(E))",
+                "assert a >= 0 and a + w <= len(E) and T[0].index_ + w - 1 < a + 1",
+                "forall i | assert implies(a <= i and i <= a + w - 1, T[a + w - 1 - i].pair == i + 1 and E[i].index_ == i + 1)"
+                " | assert implies(a <= i and i <= a + w - 1, E[i].index_ in paired)"
+                " | assert implies(a <= i and i <= a + w - 1, 0 <= PS[i] and PS[i] < m and F[PS[i]] == i)",
+                "forall j | assert implies(0 <= j and j < m, 0 <= F[j] and F[j] < len(E) and E[F[j]].index_ in paired and E[F[j]].index_ == F[j] + 1)"
+                " | assert implies(0 <= j and j < m, a <= F[j] and F[j] <= a + w - 1)",
+                "assert onto_interval(F, PS, m, a, w)",
+                "use onto_length(F, PS, m, a, w)",
+                "forall j | use consecutive(F, PS, m, a, w, j) | assert implies(0 <= j and j < m, F[j] == a + j)"
+                " | assert implies(0 <= j and j < w, strand3p_entries[j] is E[a + j])",
+                "assert m == w"]},
+    ]
+
+
 # ------------------------------------------------------------------------------------------------ BpSeq.elements (stems part)
 @spec
 def stem_of(st, T):
@@ -596,10 +678,85 @@ class bpseq_without_isolated:
     }
 
 
+def _defaultdict(e, args, kw, node, st):
+    """collections.defaultdict(set): an empty dict whose missing-key read inserts set() (the engine's defaultdict semantics)"""
+    from pyvc.engine import VEmptyDict
+    from pyvc.values import VFunc, Unsupported
+    f = args[0] if args else None
+    if not (isinstance(f, VFunc) and f.kind == "builtin" and f.payload == "set") or len(args) != 1 or kw:
+        raise Unsupported("defaultdict with this factory")
+    return VEmptyDict(default="set")
+
+
+def _sorted_int_set(e, args, kw, node, st):
+    """ASSUMED contract of sorted(S) for a set S of integers: the strictly increasing list of exactly the members of S
+    (ghost SORTED_IDX: member -> its position in the result)."""
+    import z3
+    from pyvc.values import Unsupported, VList, VSet, fresh, sel, to_z3, uid
+    if len(args) != 1 or kw or not isinstance(args[0], VSet) or args[0].kshape != ("int",):
+        raise Unsupported("sorted() of this value has no assumed contract here")
+    S = args[0]
+    out = fresh(("list", ("int",)), uid("sorted"))
+    n = to_z3(out.length)
+    idx = z3.Const(uid("sorted.idx"), z3.ArraySort(z3.IntSort(), z3.IntSort()))
+    q, w, k = z3.Int(uid("q")), z3.Int(uid("w")), z3.Int(uid("k"))
+    at = lambda t: z3.Select(out.elems, t)
+    st.assume(n >= 0)
+    st.assume(z3.ForAll([q], z3.Implies(z3.And(q >= 0, q < n), to_z3(sel(S.mem, at(q)))), patterns=[at(q)]))
+    st.assume(z3.ForAll([q, w], z3.Implies(z3.And(q >= 0, q < w, w < n), at(q) < at(w)), patterns=[z3.MultiPattern(at(q), at(w))]))
+    st.assume(z3.ForAll([k], z3.Implies(to_z3(sel(S.mem, k)), z3.And(idx[k] >= 0, idx[k] < n, at(idx[k]) == k)), patterns=[idx[k]]))
+    st.ghost["SORTED_IDX"] = VList(n, idx, ("int",))
+    return out
+
+
+EXTERNALS["collections.defaultdict"] = _defaultdict
+EXTERNALS["builtins.sorted"] = _sorted_int_set
+
+# ghost slot of the cached property BpSeq.__stems_entries: the list every access returns (see stems_entries_cached)
+CLASSES["BpSeq"]["fields"]["stems_"] = "list[list[Entry]]"
+CLASSES["BpSeq"]["derived"].append("stems_")
+
+
+class stems_entries_cached(_c.stems_entries):
+    """the proved contract of BpSeq.__stems_entries (common_c, C01) as seen by a caller that reads the cached property more
+    than once: every access returns the same list (ghost slot self.stems_).  ASSUMED: cached_property semantics."""
+    returns_value = "self.stems_"
+    ensures_in_variant = {}
+
+
+@spec
+def stem_strands(ST, S, E, db, upto):
+    """the first `upto` Stem objects describe the first `upto` runs: strand ends and the slices of sequence and text"""
+    return forall(lambda a: implies(0 <= a and a < upto,
+                                    stem_of(ST[a], S[a])
+                                    and strand_at(ST[a].strand5p, E, db, S[a][0].index_ - 1, len(S[a]))
+                                    and strand_at(ST[a].strand3p, E, db, S[a][0].pair - len(S[a]), len(S[a]))))
+
+
+@spec
+def stop_ends(stopset, E, S, upto):
+    """the stops so far are paired positions inside the structure, and the 5' start and the 3' end of every stem so far are stops"""
+    return (forall(lambda x: implies(x in stopset, 0 <= x and x < len(E) and E[x].pair != 0))
+            and forall(lambda a: implies(0 <= a and a < upto, (S[a][0].index_ - 1) in stopset and (S[a][0].pair - 1) in stopset)))
+
+
+@spec
+def hairpin_ok(h, E, db):
+    """C07 'hairpins are pairs enclosing only unpaired nucleotides' (one direction): the strand of the reported hairpin h
+    runs from a nucleotide to its partner, everything strictly between is unpaired, and it carries the slices"""
+    return (1 <= h.strand.first and h.strand.first < h.strand.last and h.strand.last <= len(E)
+            and E[h.strand.first - 1].pair == h.strand.last
+            and forall(lambda x: implies(h.strand.first <= x and x < h.strand.last - 1, E[x].pair == 0))
+            and strand_at(h.strand, E, db, h.strand.first - 1, h.strand.last - h.strand.first + 1))
+
+
 class bpseq_elements:
-    """BpSeq.elements, the part that without_isolated relies on (the full C07 contract extends this one): the first
-    component lists one Stem object per maximal run of stacked pairs (ghost S, GS as for __stems_entries), in 5' order,
-    with the strand ends of that run; nothing that existed before the call is written"""
+    """BpSeq.elements (C07; the stems part is what C12's without_isolated relies on).  S, GS (ghost): the maximal runs of
+    stacked pairs and the map 5' position -> run, as proved for __stems_entries.  Proved here for the RETURNED value:
+    one Stem per run, in 5' order, with mirrored strands and the slices of sequence / dot-bracket text; every reported
+    hairpin is a pair enclosing only unpaired nucleotides, with its slices; nothing that existed before the call is written.
+    NOT stated here (bounded oracle only): loops, free single strands, the 5'/3' tails' place in the returned list,
+    'every such pair is reported', coverage of the unpaired nucleotides."""
     target = "BpSeq.elements"
     params = {"self": "BpSeq"}
     requires = ["valid(self.entries)"]
@@ -607,8 +764,30 @@ class bpseq_elements:
     ghost_returns = {"S": "list[list[Entry]]", "GS": "list[int]"}
     raises = []
     ensures = ["stems_ok(self.entries, S)", "stems_cover(self.entries, S)", "stems_maximal(self.entries, S)", "stems_inverse(self.entries, S, GS)",
-               "stems_are(result[0], S)"]
+               "stems_are(result[0], S)",
+               "stem_strands(result[0], S, self.entries, self.dot_bracket_.structure, len(S))",
+               "forall(lambda b: implies(0 <= b and b < len(result[2]), hairpin_ok(result[2][b], self.entries, self.dot_bracket_.structure)))"]
+    ensures_labels = {0: "runs-of-stacked-pairs", 1: "every-pair-in-a-stem", 2: "maximal", 3: "every-pair-in-the-stem-GS-names",
+                      4: "one-Stem-per-run-with-mirrored-strand-ends", 5: "stem-strands-are-the-slices", 6: "hairpins-enclose-only-unpaired"}
     modifies = []
+    callee_variants = {"BpSeq.__stems_entries": "cached"}
+    defaultdicts = ["graph"]
+    locals = {"stems": "list[Stem]", "single_strands": "list[SingleStrand]", "hairpins": "list[Hairpin]", "loops": "list[Loop]",
+              "stopset": "set[int]", "loop_candidates": "list[rec[Strand]]", "graph": "dict[int,set[int]]",
+              "used": "set[rec[Strand]]", "loop": "list[rec[Strand]]"}
+    ghost_exit = ["let S = self.stems_", "let GS = __stems_entries_GS"]
+    ghost = [
+        {"when": "after", "at": "stopset = set()", "label": "names",
+         "do": ["let S = self.stems_", "let GS = __stems_entries_GS", "let E = self.entries", "let DB = self.dot_bracket_.structure"]},
+    ]
+    loops = {
+        0: {"index": "k", "inv": ["len(stems) == k", "stem_strands(stems, S, E, DB, k)", "stop_ends(stopset, E, S, k)"]},
+        1: {"allocates": ["Hairpin.strand"], "inv": [
+            "len(hairpins) >= 0 and len(loop_candidates) >= 0",
+            "forall(lambda b: implies(0 <= b and b < len(hairpins), ident(hairpins[b]) < frontier() and hairpin_ok(hairpins[b], E, DB)))"]},
+        2: {"inv": []}, 3: {"inv": []}, 4: {"allocates": ["Loop.strands"], "inv": []}, 5: {"inv": []}, 6: {"inv": []},
+        7: {"allocates": ["SingleStrand.strand", "SingleStrand.is5p", "SingleStrand.is3p"], "inv": []},
+    }
 
 
 CONTRACTS = dict(_c.CONTRACTS)
@@ -622,5 +801,7 @@ CONTRACTS.update({
     "BpSeq.without_pseudoknots": bpseq_without_pseudoknots,
     "BpSeq.without_isolated": bpseq_without_isolated,
     "BpSeq.elements": bpseq_elements,
+    "BpSeq.__stems_entries@cached": stems_entries_cached,
     "Strand.from_bpseq_entries": strand_from_entries,
+    "Stem.from_bpseq_entries": stem_from_entries,
 })
